@@ -552,10 +552,17 @@ func genGeneralX(r *hx.Rng, force *xform) string {
 		}
 		rotateStart(r, a)
 		rotateStart(r, b)
-		if r.Chance(1, 4) { // coordinates that differ by 1e-5 … 1e-9 without being equal
+		op := hx.Pick(r, ops)
+		if r.Chance(1, 6) && len(a) > 0 && len(b) > 0 { // the combined region is PROVABLY empty (EO.emptyCert)
+			op, a, b = emptyRegion(r, ft, a, b)
+		}
+		if r.Chance(1, 4) && !sameFPoly(a, b) { // coordinates that differ by 1e-5 … 1e-9 without being equal
 			nudge(r, ft, a, b)
 		}
 		crossings, ok := generalPosition(a, b)
+		if sameFPoly(a, b) { // identical operands (the same slice): general position of the polygon itself
+			crossings, ok = generalPosition(a, nil)
+		}
 		if !ok {
 			continue
 		}
@@ -570,8 +577,13 @@ func genGeneralX(r *hx.Rng, force *xform) string {
 			x = &t
 		}
 		if x != nil { // another magnitude: the transformed values are the input; general position is re-checked on them
+			same := sameFPoly(a, b)
 			a, b = x.poly(a, ft), x.poly(b, ft)
-			if _, ok := generalPositionM(a, b, math.Ldexp(genMargin, x.k)*0.9); !ok {
+			other := b
+			if same {
+				b, other = a, nil
+			}
+			if _, ok := generalPositionM(a, other, math.Ldexp(genMargin, x.k)*0.9); !ok {
 				continue
 			}
 			for i := range pts {
@@ -580,7 +592,7 @@ func genGeneralX(r *hx.Rng, force *xform) string {
 			margin = x.marginTok()
 		}
 		var sb strings.Builder
-		sb.WriteString(hx.Pick(r, ops) + " " + ft + " P " + margin + " " + strconv.Itoa(k))
+		sb.WriteString(op + " " + ft + " P " + margin + " " + strconv.Itoa(k))
 		for _, p := range pts {
 			sb.WriteByte(' ')
 			sb.WriteString(fmtNum(p.x))
